@@ -149,6 +149,7 @@ func c05Graphs(r *mc.Report, n int, orderDev int, shard, nshards int) {
 // ---------------------------------------------------------------- container level
 
 type c05ContCase struct {
+	Dup    bool     `json:"dup,omitempty"` // every dependency declared twice
 	N      int      `json:"n"`
 	Mask   uint32   `json:"mask"`
 	Target []string `json:"target_forms"` // per node: plain | keyed | group
@@ -179,6 +180,9 @@ func (c c05ContCase) spec() kit.Spec {
 				allPlain = false
 			}
 			r.Deps = append(r.Deps, d)
+			if c.Dup {
+				r.Deps = append(r.Deps, d)
+			}
 		}
 		r.In = c.Shape == "in" || !allPlain
 		spec.Regs = append(spec.Regs, r)
@@ -406,6 +410,9 @@ func c05Containers(r *mc.Report, n int, uniform bool, lifes []string, shard, nsh
 				}
 				if allPlain {
 					run(c05ContCase{N: n, Mask: mask, Target: t, Shape: "positional", Life: life})
+					if mask != 0 {
+						run(c05ContCase{N: n, Mask: mask, Target: t, Shape: "positional", Life: life, Dup: true})
+					}
 				}
 			}
 		}
